@@ -179,7 +179,7 @@ ReadRet ==                          \* OBSERVABLE: the read returned cret
 \* name it never received ("zz"), a repeated answer, garbage, an oversized length, a truncated message
 AnswerNames == Names \cup {"zz"}
 \* "closein" / "waitabort" in FaultKinds switch on two further things a client may do (below); they are not writes
-WriteKinds == {"resp"} \cup (FaultKinds \ {"closein", "waitabort", "closeout"})
+WriteKinds == {"resp"} \cup (FaultKinds \ {"closein", "waitabort", "closeout", "stall"})
 
 WriteCall(kind, n) ==               \* OBSERVABLE: the client starts writing to stdout
   /\ CliIdle /\ ~outClosed
@@ -249,6 +249,16 @@ WaitAbortRet ==                     \* OBSERVABLE: the client's context was canc
                  rpc, rmsg, rerr, seen, cop, cret, cops, inbox, aborted, exitFail, readPh, pipesClosed, pdone,
                  kpc, wpc, wres, regs, cbs, cblog, hist>>
 
+\* "stall" in FaultKinds: the client goes quiet - it neither writes, reads, closes anything nor leaves - until it
+\* is told to stop.  Nothing it has written is wrong; what ends the wait is the reader's response timeout below.
+StallCall ==                        \* OBSERVABLE
+  /\ CliIdle /\ "stall" \in FaultKinds /\ ~aborted
+  /\ cpc' = "waitabort" /\ cops' = cops + 1
+  /\ H(<<"ST">>)
+  /\ UNCHANGED <<pc, idx, res, lock, pending, closedSend, err, terminated, done, wif, stdinR, wof, rpartial, outClosed,
+                 rpc, rmsg, rerr, seen, cop, cret, inbox, aborted, exitFail, readPh, pipesClosed, pdone,
+                 kpc, wpc, wres, regs, cbs, cblog>>
+
 Exit(fail) ==                       \* OBSERVABLE: the client function is about to return
   /\ cpc \in {"idle", "mustexit"}
   /\ cpc' = "exited" /\ exitFail' = fail
@@ -289,6 +299,15 @@ Read ==
                        ELSE rpc' = "closing" /\ rerr' = "eof"
         /\ UNCHANGED <<wof, rmsg, rpartial>>
   /\ UNCHANGED <<pc, idx, res, lock, pending, closedSend, err, terminated, done, wif, stdinR, outClosed, seen,
+                 cpc, cop, cret, cops, inbox, aborted, exitFail, readPh, pipesClosed, pdone,
+                 kpc, wpc, wres, regs, cbs, cblog, hist>>
+
+\* the reader's read gives up (clientResponseTimeout): modelled for a client that has gone quiet for good - nothing
+\* in flight, its output still open, waiting to be told to stop.  Whether anything is pending does not matter.
+ReadTimeout ==
+  /\ rpc = "reading" /\ wof = NoO /\ ~outClosed /\ cpc = "waitabort" /\ ~aborted
+  /\ rpc' = "failing" /\ rerr' = "timeout"
+  /\ UNCHANGED <<pc, idx, res, lock, pending, closedSend, err, terminated, done, wif, stdinR, wof, rpartial, outClosed, rmsg, seen,
                  cpc, cop, cret, cops, inbox, aborted, exitFail, readPh, pipesClosed, pdone,
                  kpc, wpc, wres, regs, cbs, cblog, hist>>
 
@@ -387,13 +406,13 @@ WaitRet ==                          \* OBSERVABLE
 (* ------------------------------------------------------------------ system *)
 Internal == \/ \E s \in Senders : CheckErr(s) \/ Lock(s) \/ Register(s) \/ WriteDone(s) \/ WriteFail(s)
             \/ ClientTakes \/ ClientSeesEOF \/ ClosePipes \/ ProcDone
-            \/ Read \/ Lookup \/ Fail \/ CloseSendByReader \/ ReaderDone \/ CloseDo \/ WaitDone
+            \/ Read \/ ReadTimeout \/ Lookup \/ Fail \/ CloseSendByReader \/ ReaderDone \/ CloseDo \/ WaitDone
 
 Observable == \/ \E s \in Senders : SendCall(s) \/ SendRet(s)
               \/ ReadCall \/ ReadRet
               \/ (\E k \in WriteKinds : \E n \in AnswerNames \cup {"-"} : WriteCall(k, n)) \/ WriteRet
               \/ (\E f \in BOOLEAN : Exit(f))
-              \/ CloseInCall \/ CloseInRet \/ WaitAbortCall \/ WaitAbortRet \/ CloseOutCall \/ CloseOutRet
+              \/ CloseInCall \/ CloseInRet \/ WaitAbortCall \/ WaitAbortRet \/ CloseOutCall \/ CloseOutRet \/ StallCall
               \/ CbStep \/ CloseCall \/ CloseRet \/ WaitCall \/ WaitRet
 
 \* explicit stuttering at the quiescent end so that TLC's deadlock check finds real hangs only
@@ -406,7 +425,7 @@ Fair == /\ \A s \in Senders : WF_vars(SendCall(s)) /\ WF_vars(CheckErr(s)) /\ WF
                               /\ WF_vars(WriteDone(s)) /\ WF_vars(WriteFail(s)) /\ WF_vars(SendRet(s))
         /\ WF_vars(ClientTakes) /\ WF_vars(ClientSeesEOF) /\ WF_vars(ReadRet) /\ WF_vars(WriteRet)
         /\ WF_vars(ClosePipes) /\ WF_vars(ProcDone)
-        /\ WF_vars(Read) /\ WF_vars(Lookup) /\ WF_vars(CbStep) /\ WF_vars(Fail) /\ WF_vars(CloseSendByReader) /\ WF_vars(ReaderDone)
+        /\ WF_vars(Read) /\ WF_vars(ReadTimeout) /\ WF_vars(Lookup) /\ WF_vars(CbStep) /\ WF_vars(Fail) /\ WF_vars(CloseSendByReader) /\ WF_vars(ReaderDone)
         /\ WF_vars(CloseCall) /\ WF_vars(CloseDo) /\ WF_vars(CloseRet) /\ WF_vars(WaitCall) /\ WF_vars(WaitDone) /\ WF_vars(WaitRet)
         /\ WF_vars(Exit(FALSE)) /\ WF_vars(CloseInRet) /\ WF_vars(WaitAbortRet) /\ WF_vars(CloseOutRet)
 Spec == Init /\ [][Next]_vars /\ Fair
